@@ -7,6 +7,7 @@ import (
 )
 
 func applyMatrixSlice(m gf2p16.Matrix, in, out [][]byte, outStart, outEnd, dataStart, dataEnd int) {
+	verifApplyEvent(outStart, outEnd, dataStart, dataEnd, len(in[0]))
 	for i := outStart; i < outEnd; i++ {
 		outSlice := out[i][dataStart:dataEnd]
 		c := m.At(i, 0)
@@ -64,6 +65,8 @@ func applyMatrixParallelOut(m gf2p16.Matrix, in, out [][]byte, numGoroutines int
 	for i := 0; i < numGoroutines; i++ {
 		go func(i int) {
 			defer wg.Done()
+			verifWorkerEvent("start", i, numGoroutines, len(in[0]))
+			defer verifWorkerEvent("end", i, numGoroutines, len(in[0]))
 			start := i * perGoroutineOutLength
 			end := start + perGoroutineOutLength
 			if end > outLength {
@@ -97,6 +100,8 @@ func applyMatrixParallelData(m gf2p16.Matrix, in, out [][]byte, numGoroutines in
 	for i := 0; i < numGoroutines; i++ {
 		go func(i int) {
 			defer wg.Done()
+			verifWorkerEvent("start", i, numGoroutines, len(in[0]))
+			defer verifWorkerEvent("end", i, numGoroutines, len(in[0]))
 			start := i * perGoroutineDataLength
 			end := start + perGoroutineDataLength
 			if end > dataLength {
